@@ -411,6 +411,12 @@ class GPRuns(Facet):
                     f"C13/gp-run/{'parallel' if par else 'sequential'}/counter-differs-from-invocations",
                     f"{desc}: counter {ev.number_of_evaluations()}, invocations {invocations}",
                 )
+            elif tracker.get_number_evaluations() != invocations:
+                # the number the budgets read
+                rec.fail(
+                    f"C13/gp-run/{'parallel' if par else 'sequential'}/tracker-counter-differs-from-invocations",
+                    f"{desc}: tracker.get_number_evaluations() = {tracker.get_number_evaluations()}, fitness function invoked {invocations} times (evaluator counter {ev.number_of_evaluations()})",
+                )
             if len(registered) > distinct + 1:
                 rec.nontrivial(case)
         finally:
